@@ -27,7 +27,7 @@ def sig_of(v):
 
 
 def sig_str(s):
-    return "|".join(s)
+    return "::".join(s)
 
 
 def rec_digest(rec):
@@ -231,7 +231,7 @@ def replay(prop, path, expect=None):
     case = json.load(open(path))
     rec = prop.run_case(case)
     exp = case.get("expect")
-    want = tuple(expect.split("|")) if expect else (
+    want = tuple(expect.split("::")) if expect else (
         (exp["property"], exp["clause"], exp["kind"], exp.get("site", "")) if exp else None)
     sigs = [sig_of(v) for v in rec["violations"]]
     for v in rec["violations"]:
@@ -269,7 +269,9 @@ def run_witnesses(prop, findings):
             still = any(sig_of(v) == want for v in rec["violations"])
             if f["status"] == "open":
                 if still:
-                    lines.append("KNOWN-FINDING: property=%s %s %s" % (prop.ID, f["id"], f["what"]))
+                    ln = "KNOWN-FINDING: property=%s %s %s" % (prop.ID, f["id"], f["what"])
+                    if ln not in lines:
+                        lines.append(ln)
                 others = [v for v in rec["violations"] if sig_of(v) != want and v["property"] == prop.ID]
                 feats = rec.get("features", {})
                 unl, _ = classify(others, feats, findings)
